@@ -38,7 +38,7 @@ PROPS = {
                       "inconclusive, not a verdict), rustc, std.",
     },
     "C04": {
-        "cases": {"quick": 640, "thorough": 32000},
+        "cases": {"quick": 2400, "thorough": 48000},
         "rule": "Per case one random definition of any invariant-respecting shape x byte-string "
                 "vectors (noise over the definition's names, junk items, invalid UTF-8, clusters of "
                 "0.4-1.2 KiB (quick) / up to 4 KiB (thorough), sentences with hostile values) x modes {parse, completion revisions "
